@@ -86,6 +86,11 @@ func (fs *Filesystem) MkdirTemp(dir, pattern string) (string, error) {
 		if err != nil {
 			return "", err
 		}
+	} else if fs.base != "" {
+		// An empty dir means the default temporary directory, which for the
+		// operating system is outside of this filesystem's base directory.
+		// A rooted filesystem creates its temporary directories in its root.
+		dir = fs.base
 	}
 	result, err := os.MkdirTemp(dir, pattern)
 	if err != nil {
